@@ -420,4 +420,24 @@ func main() {
 			enc.Encode(ev)
 		}
 	}
+	// The group loses its quorum (an unreachable voter is added): proposals are accepted by the leader but
+	// cannot be committed.  A write must then fail (the 5 s proposal time-out), never be acknowledged.
+	if g := w.ds.VerifRaft(pLocal); g != nil {
+		g.ProposeJoin(2, "")
+		time.Sleep(400 * time.Millisecond)
+		for _, kind := range []string{"insert", "remove"} {
+			hid++
+			id := w.fresh(pLocal)
+			ev := event{Ev: "write", Hid: hid, Kind: kind, Path: "local-noquorum", Order: "caller-first", Id: idnum(id), Before: w.present(id)}
+			t0 := time.Now()
+			err := w.call(kind, id, 3, 9*time.Second)
+			ev.Ms = int(time.Since(t0) / time.Millisecond)
+			ev.Ret = classify(err)
+			if err != nil {
+				ev.Err = err.Error()
+			}
+			ev.After = w.present(id)
+			enc.Encode(ev)
+		}
+	}
 }
